@@ -47,7 +47,7 @@ def mk_programs(sc, ops_lists):
 REPO_NAMES = ["proj/app", "proj", "other"]
 
 DEFAULT_CFG = {"store": "dir", "push": True, "delete": True, "blobDelete": True, "referrers": True, "readOnly": False,
-               "untagged": False, "dangling": False, "withSubj": True, "emptyRepo": True, "grace": True,
+               "untagged": False, "dangling": False, "withSubj": False, "emptyRepo": True, "grace": True,
                "uploadMax": 0, "manLimit": 3000, "refLimit": 0, "rateLimit": 0, "refLimitCls": "unl"}
 
 
@@ -220,3 +220,69 @@ def c02(prop, tier, seed, work):
 
 
 CHECKS["C02"] = c02
+
+
+def c03(prop, tier, seed, work):
+    scs = [
+        dict(name="tags", profile="tags", contents=["m1", "m2", "x1"], algs=["sha256"], depth=(16, 30), num=(40, 400),
+             stores=STORES3, obs=[], mc_contents=["m1", "m2"], mc_depth=(4, 5), ntags=3),
+        dict(name="tags4", profile="tags", contents=["m1", "m2", "m3"], algs=["sha256"], depth=(20, 40), num=(20, 300),
+             stores=["mem", "dir"], obs=[], ntags=4, tagstyle=1),
+    ]
+    return histories(prop, tier, seed, work, scs, "", "a history is non-trivial if it moves or deletes a tag (ManDel) after pushes; distinct = distinct operation sequences",
+                     {"ManDel"})
+
+
+CHECKS["C03"] = c03
+
+
+def c01(prop, tier, seed, work):
+    scs = [
+        dict(name="upload", profile="upload", contents=["m1", "m2", "b0", "b4"], algs=["sha256", "sha512"], depth=(18, 30), num=(30, 300),
+             stores=STORES3, obs=["sess"], mc_contents=["m1"], mc_depth=(4, 5)),
+        dict(name="upload384", profile="upload", contents=["m1", "b0"], algs=["sha256", "sha384", "sha512"], depth=(18, 30), num=(15, 200),
+             stores=["mem", "dir"], obs=["sess"]),
+    ]
+    return histories(prop, tier, seed, work, scs, "", "a history is non-trivial if it completes at least one upload with PUT or pushes a manifest; distinct = distinct operation sequences",
+                     {"UpPut", "ManPut"})
+
+
+CHECKS["C01"] = c01
+
+
+def c04(prop, tier, seed, work):
+    scs = [
+        dict(name="manput", profile="manput", contents=["m1", "m2", "m3", "m4", "x1", "x3", "a1", "mg"], algs=["sha256", "sha512"], depth=(18, 30), num=(40, 400),
+             stores=STORES3, obs=["refs"], mc_contents=["m1", "x4"], mc_depth=(3, 4)),
+    ]
+    return histories(prop, tier, seed, work, scs, "", "a history is non-trivial if it contains a manifest push; distinct = distinct operation sequences",
+                     {"ManPut"})
+
+
+CHECKS["C04"] = c04
+
+
+def c07(prop, tier, seed, work):
+    scs = [
+        dict(name="refs", profile="refs", contents=["m1", "m2", "x1", "a1", "a2", "a3", "a4", "a5", "a6", "a7"], algs=["sha256"], depth=(24, 40), num=(30, 300),
+             stores=STORES3, obs=["refs", "filters"], mc_contents=["m1", "a1", "a2"], mc_depth=(4, 5), nrepos=1),
+        dict(name="refs512", profile="refs", contents=["m1", "a1", "a8", "a3"], algs=["sha256", "sha512"], depth=(20, 30), num=(10, 100),
+             stores=["mem", "dir"], obs=["refs", "filters"], nrepos=2),
+    ]
+    return histories(prop, tier, seed, work, scs, "", "a history is non-trivial if it pushes at least one manifest with a subject; distinct = distinct operation sequences",
+                     {"ManPut"})
+
+
+CHECKS["C07"] = c07
+
+
+def c08(prop, tier, seed, work):
+    scs = [
+        dict(name="sess", profile="sess", contents=["b0", "b1", "b2", "b4"], algs=["sha256", "sha512"], depth=(24, 40), num=(40, 400),
+             stores=STORES3, obs=["sess", "disk"], mc_contents=["b1", "b2"], mc_depth=(4, 5)),
+    ]
+    return histories(prop, tier, seed, work, scs, "", "a history is non-trivial if it sends at least one PATCH; distinct = distinct operation sequences",
+                     {"UpPatch"})
+
+
+CHECKS["C08"] = c08
